@@ -24,6 +24,8 @@ def demo_cmds(wt):
     tests = re.findall(r"(?:timeout\s+\d+\s+)?go\s+(?:test|run)\s+[^;&#\n]*", h)
     extra = re.findall(r"(?:(?:bash|sh)\s+)?/\S+\.sh[^;&#\n]*", h)
     extra = [e for e in extra if "<" not in e]   # prose such as `cli_check.sh <rare-binary> 1` is not a command
+    tests = [re.sub(r"\s\((?:FAILS|PASSES|fails|passes|with|without)[^)]*\).*$", "", t) for t in tests]   # trailing prose
+    tests = [t for t in tests if "./" in t or " -run" in t]                                           # "go test command (PASSES)" is prose
     return cps, tests + extra
 
 def run_demo(wt):
